@@ -616,8 +616,8 @@ def pair_sweep(ctx, rep, rng):
 
 
 def plan(tier, seed, scale=1.0):
-    n = int((190 if tier == "quick" else 3800) * scale)
-    return [{"n": n, "timeout": 1700, "sweep": i == 0} for i in range(16)]
+    n = int((500 if tier == "quick" else 9000) * scale)
+    return [{"n": n, "timeout": 6000, "sweep": i == 0} for i in range(16)]
 
 
 def run_shard(shard, rep):
